@@ -37,7 +37,7 @@ SLOTS = [
 
 HEADER = '''from collections import defaultdict
 from typing import Any, Callable, DefaultDict, Dict, Iterator, Generator, List, NewType, Optional, Set, Tuple, Type, Union
-from vf.fixtures.hier import A, B, C, D, M, Outer, MyList, MyDict, NT, func, lam, make_gen, MySet, MyTuple, Handler, partial, zero
+from vf.fixtures.hier import A, B, C, D, M, Outer, MyList, MyDict, NT, func, lam, make_gen, MySet, MyTuple, Handler, partial, zero, raw_cmeth, lazy_prop, GetOnly, partialmethod, Movie
 from vf.fixtures.hier import X1, X2, X3, X4, X5, X6, R1, R2, E1, E2, E3, E4, E5, E6, AH1, AH2, AH3, AH4, AH5, AH6
 from vf.fixtures.hier import TimeoutError, Warning, KeyError_, SKey, Registry  # noqa: A004 - user classes named like builtins
 from vf.fixtures.helpers import pick
@@ -113,6 +113,16 @@ class Param:
         return s
 
 
+# consecutive yields of ONE call: a parametrised generic followed by a value of its parameter's type; values of one Python class whose
+# traced types differ; dicts with equal top-level keys that differ only inside a nested dict
+YIELD_SEQS = [
+    ["[1, 2]", "1"], ["(1, 'a')", "'a'"], ["{3}", "3"], ["A", "A()"], ["{'a': 1}", "1"], ["[[1]]", "[1]"],
+    ["[1]", "['a']"], ["('x', 0)", "(None, 2)"], ["A", "B"], ["{1: 2}", "{'s': None}"], ["{1}", "{'s'}"], ["[A()]", "[B()]", "[1]"],
+    ["{'a': {'x': 1}, 'b': 1}", "{'a': {'y': 's'}, 'b': 2}"], ["{'a': [{'x': 1}], 'b': 1}", "{'a': [{'y': 1}], 'b': 1}"],
+    ["{'a': {'x': {'p': 1}}}", "{'a': {'x': {'q': 1}}}"], ["1", "1", "'s'", "1"],
+]
+
+
 class FuncSpec:
     def __init__(self, idx, name, cls_path, kind, flavor):
         self.idx, self.name, self.cls_path, self.kind, self.flavor = idx, name, cls_path, kind, flavor
@@ -124,6 +134,8 @@ class FuncSpec:
         self.subdeco = False  # decorate through a subclass of classmethod / staticmethod / property
         self.wrapped = False  # behind a functools.wraps wrapper written with a plain def
         self.single_yield = False  # one yield statement cycling through the values: calls with equal arguments yield different types
+        self.yield_seq = None  # fixed consecutive yields of one call (YIELD_SEQS)
+        self.delegate = False  # the fixed yields come from a sub-iterator through `yield from`
 
     @property
     def qual(self):
@@ -174,6 +186,10 @@ class FuncSpec:
             body.append(f"yield pick({self.idx * 10 + 1}, [{', '.join(y)}])")
             if len(y) > 1 and not self.single_yield:
                 body.append(f"yield pick({self.idx * 10 + 2}, [{', '.join(reversed(y))}])")
+        if self.yield_seq and self.delegate:
+            body.append(f"yield from [{', '.join(self.yield_seq)}]")
+        elif self.yield_seq:
+            body += [f"yield {e}" for e in self.yield_seq]
         if self.exit == "raise":
             body.append("raise Err('x')")
         elif self.exit == "mixed":
@@ -303,6 +319,11 @@ class Mod:
                 n = rng.choice([1, 2])
                 f.yield_vals = [prefix_keys(e, f"y{idx}") if unique else e for e in rng.sample(self.value_pool(), n)]
                 f.single_yield = idx % 2 == 0
+                if not self.opts.get("pool") and idx % 3 != 2:
+                    f.yield_seq = [prefix_keys(e, f"q{idx}") if unique else e for e in YIELD_SEQS[(idx // 3 + sum(map(ord, self.name))) % len(YIELD_SEQS)]]
+                    f.delegate = idx % 3 == 1
+                    if idx % 2:
+                        f.yield_vals = []
                 f.exit = rng.choice(["return", "none", "none", "raise"])
                 if f.exit == "return":
                     f.ret_vals = [rng.choice(["1", "'s'", "A()", "None", "[1]"])]
